@@ -52,6 +52,7 @@ func C15(r *core.Run) {
 	})
 	r.Floor("R-SYM/S1", 30, "fields of Object/Oneof/Enum/ObjectProperty/*Field written by the exporter")
 	carrierCoverage(r, exp, imp)
+	verbatimImport(r, imp, pk.TypesInfo)
 	refsLinkGuard(r)
 }
 
@@ -306,4 +307,65 @@ func hasVisitedGuard(info *types.Info, body ast.Node) (string, bool) {
 		}
 	}
 	return "", false
+}
+
+// verbatimImport (R-SYM/S5v): the importer rebuilds the in-memory schema from
+// the exported form; the exporter writes names and other strings exactly as
+// the in-memory schema holds them, so the importer must take them back
+// unchanged. A string-valued field assigned from a function of the source
+// string (TrimPrefix, case conversion, …) makes export → import → export
+// differ for some names.
+func verbatimImport(r *core.Run, imp []ast.Node, info *types.Info) {
+	r.Rule("R-SYM/S5v", "in schema_from_desc.go every string-typed field of the rebuilt schema that is fed from the source description is the source field itself (a selector chain), not the result of a call applied to it; the exporter writes the in-memory strings unchanged, so any transformation on the way back is not idempotent for some names")
+	n := 0
+	for _, body := range imp {
+		ast.Inspect(body, func(nd ast.Node) bool {
+			var lhs string
+			var rhs ast.Expr
+			switch x := nd.(type) {
+			case *ast.KeyValueExpr:
+				if k, ok := x.Key.(*ast.Ident); ok {
+					lhs, rhs = k.Name, x.Value
+				}
+			case *ast.AssignStmt:
+				if len(x.Lhs) == 1 && len(x.Rhs) == 1 {
+					if s, ok := x.Lhs[0].(*ast.SelectorExpr); ok {
+						lhs, rhs = core.ExprStr(s), x.Rhs[0]
+					}
+				}
+			}
+			if rhs == nil {
+				return true
+			}
+			if b, ok := info.TypeOf(rhs).(*types.Basic); !ok || b.Kind() != types.String {
+				return true
+			}
+			call, ok := core.Unparen(rhs).(*ast.CallExpr)
+			if !ok || core.IsConversion(info, call) {
+				return true
+			}
+			// does an argument read the source description (schema_j5pb message)?
+			fromSrc := false
+			for _, a := range call.Args {
+				ast.Inspect(a, func(y ast.Node) bool {
+					if s, ok := y.(*ast.SelectorExpr); ok {
+						if nt := core.NamedOf(info.TypeOf(s.X)); nt != nil && nt.Obj().Pkg() != nil && nt.Obj().Pkg().Path() == schemaPB {
+							fromSrc = true
+						}
+					}
+					return true
+				})
+			}
+			if !fromSrc {
+				return true
+			}
+			n++
+			o := r.Add("R-SYM/S5v", fmt.Sprintf("schema_from_desc | %s = %s", lhs, core.ExprStr(rhs)), rhs.Pos(), "string field rebuilt through a function of the exported string")
+			if !r.Table("sym_sites", o) {
+				o.Fail("%s is rebuilt as %s: the exporter wrote the in-memory value unchanged, so applying a function on import changes values the function is not the identity on (export → import → export differs)", lhs, core.ExprStr(rhs))
+			}
+			return true
+		})
+	}
+	r.Analysed["transformed_string_imports"] = n
 }
